@@ -272,28 +272,52 @@ class BMRoles:
                     self.belief, self.open, self.close = st[0].target, pos[0], c
         if not ob.need(self.belief is not None, "row-opened belief register / open and close strobes not identified"):
             return
-        self.sites = {}      # state -> role (ACT / PRE / COL)
+        # command sites: one per statement that raises cmd.valid; its role and strobes come from the statements of the same branch (guards nested in one another).
+        # A state may hold several sites (e.g. column commands, plus a precharge presented straight from the idle state): the state's PRIMARY site (the column one if
+        # there is one) is what `sites` / `site_leaves` / `site_strobes` describe, the others are listed in `extra_sites` and looked at by the rules that must see every
+        # command the bank machine can present.
+        self.sites = {}      # state -> role (ACT / PRE / COL) of the primary site
         self.site_leaves = {}
         self.site_strobes = {}
+        self.all_sites = []  # (state, role, leaf raising cmd.valid, strobes)
         for s in self.fsm.states:
             ls = v.fsm_leaves(self.fsm, s)
-            val = v.asserted(ls, cmdk + ".valid")
-            if not val:
+            for L in v.asserted(ls, cmdk + ".valid"):
+                gL = v.guard_keys(L, False)
+
+                def mine(x_, gL=gL):
+                    gx = v.guard_keys(x_, False)
+                    return gx <= gL or gL <= gx
+                strobes = {nm for nm in ("ras", "cas", "we") if any(mine(x_) for x_ in v.asserted(ls, "%s.%s" % (cmdk, nm)))}
+                if any(mine(x_) for x_ in v.asserted(ls, self.open)):
+                    role = "ACT"
+                elif any(mine(x_) for x_ in v.asserted(ls, self.close)) and "cas" not in strobes:
+                    role = "PRE"
+                else:
+                    role = "COL"
+                self.all_sites.append((s, role, L, strobes))
+        self.extra_sites = []
+        for s in self.fsm.states:
+            here = [x_ for x_ in self.all_sites if x_[0] == s]
+            if not here:
                 continue
-            strobes = set()
-            for nm in ("ras", "cas", "we"):
-                if v.asserted(ls, "%s.%s" % (cmdk, nm)):
-                    strobes.add(nm)
-            if v.asserted(ls, self.open):
-                role = "ACT"
-            elif v.asserted(ls, self.close):
-                role = "PRE"
-            else:
-                role = "COL"
-            self.sites[s] = role
-            self.site_leaves[s] = val
-            self.site_strobes[s] = strobes
-        if not ob.need(sorted(self.sites.values()) == ["ACT", "COL", "PRE"], "command sites of the bank FSM not identified: %s" % self.sites):
+            roles_here = []
+            for x_ in here:
+                if x_[1] not in roles_here:
+                    roles_here.append(x_[1])
+            prim = "COL" if "COL" in roles_here else roles_here[0]
+            self.sites[s] = prim
+            self.site_leaves[s] = [x_[2] for x_ in here if x_[1] == prim]
+            st_ = set()
+            for x_ in here:
+                if x_[1] == prim:
+                    st_ |= x_[3]
+            self.site_strobes[s] = st_
+            self.extra_sites += [x_ for x_ in here if x_[1] != prim]
+        have = {x_[1] for x_ in self.all_sites}
+        ncol = len([s for s, r_ in self.sites.items() if r_ == "COL"])
+        if not ob.need(have >= {"ACT", "COL", "PRE"} and ncol == 1, "command sites of the bank FSM not identified: %s (+%s)" %
+                       (self.sites, [(x_[0], x_[1]) for x_ in self.extra_sites])):
             return
         self.closing_states = [s for s in self.fsm.states if v.asserted(v.fsm_leaves(self.fsm, s), self.close)]
         # timing gates: role by use (which sites wait for them), parameter checked separately (C03.4)
@@ -336,6 +360,11 @@ class BMRoles:
                             and [1 for (src, d, l) in self.edges if src == s] and all(rrk in v.guard_keys(l, False) for (src, d, l) in self.edges if src == s)}
         self.refresh_states = set(self.grant_sites) & self.hold_states
         self.ok = True
+
+    def mine(self, site_leaf, x):
+        """does statement x belong to the branch of the command site raised by site_leaf (guards nested in one another)?"""
+        g1, g2 = self.v.guard_keys(site_leaf, False), self.v.guard_keys(x, False)
+        return g1 <= g2 or g2 <= g1
 
     def gate_ready(self, role):
         return key(self.gates[role].attrs["ready"])
@@ -389,6 +418,20 @@ def bm_gates(ctx):
                 ob.refute("%s:%s" % (s, "+".join(missing)), "in bank FSM state %s the refresh grant is not gated by %s.ready (guards: %s) - "
                           "the precharge-all can follow an ACT/WRITE too early" % (s, "/".join(missing), sorted(g)), l.loc,
                           {"state": s, "site": "refresh grant", "guards": sorted(g)})
+    # additional command sites of a state (e.g. a precharge presented straight from the idle state)
+    for s, role, l, _st in R.extra_sites:
+        g = v.guard_keys(l)
+        if role == "PRE":
+            nsites += 1
+            missing = [nm for k, nm in need.items() if k not in g]
+            ob.instance("state %s: additional PRE site" % s, {"guards": sorted(g), "missing": missing})
+            if missing:
+                ob.refute("%s:%s" % (s, "+".join(missing)), "in bank FSM state %s a precharge is presented without %s.ready (guards: %s) - it can follow an ACT/WRITE too "
+                          "early" % (s, "/".join(missing), sorted(g)), l.loc)
+        elif role == "ACT":
+            ob.instance("state %s: additional ACT site" % s, {"guards": sorted(g)})
+            if R.gate_ready("tRC") not in g:
+                ob.refute("%s:tRC" % s, "ACT is presented in state %s without gate(tRC).ready (guards %s)" % (s, sorted(g)), l.loc)
     # ACT gated by tRC
     for s, role in R.sites.items():
         if role == "ACT":
